@@ -24,6 +24,9 @@ CHECKS = {
  "C07": ("exploration", "histories = base + 1..3 update revisions rendered by the reference writer (tables/streams, plain/ObjStm) and every %%EOF-prefix loaded and compared with the 'latest wins' model; and 1..4 chained IncrementalDocument updates on foreign or own base files checked for verbatim prefix, one new section with the right Prev, exactly the edited objects in the tail, unchanged previous view and correct reload",
          "trusted: REF-W, STRICT-R, CANON (as in C02/C03)",
          "property-based testing over histories (vec of revisions / vec of edit lists) against a reference model; differential with a reference writer and strict reader"),
+ "C08": ("exploration", "files with many object streams and object numbers redefined across containers are loaded under EVERY order in which the per-container blocks can reach the merge (hook H1, n! orders, exhaustive in that dimension), inside rayon pools of 1..16 threads repeatedly, and by the sequential build; all digests must agree. Files are sampled; intra-rayon interleavings are sampled by repetition",
+         "trusted: hook H1 reorders only what thread completion could reorder; CANON digest; REF-W",
+         "schedule enumeration through a merge-order hook plus repeated loads on thread pools, over proptest-generated files; differential against the sequential build"),
 }
 NA = {}
 def main():
